@@ -426,7 +426,57 @@ def cross_script_section(ctx):
             ctx.spec_failure(case, bad)
 
 
+def declared_tag_section(ctx):
+    """declared script tags of every kind -- the tag fontTools derives from the Unicode script (grek), an older tag of the same
+    script (deva next to no dev2), a tag whose characters belong to another tag's script (jamo: Hang), tags that belong to no
+    Unicode script at all (musc, byzm), a tag nobody knows (zzzq): each has a record in GPOS because the mark feature is
+    registered for every declared script, and from each the kerning between script-neutral glyphs (which occur in runs of
+    every script) is reachable and applies the UFO value"""
+    import ufo2ft
+    from fontTools.ttLib import TTFont
+    TAGS = [("grek", [("alpha", 0x3B1)]), ("deva", [("ka-deva", 0x915)]), ("jamo", [("kiyeok-jamo", 0x1100)]), ("musc", [("gclef", 0x1D11E)]),
+            ("byzm", [("psili-byz", 0x1D000)]), ("zzzq", [("a", 0x61)]), ("math", [("Abold-math", 0x1D400)]), ("kana", [("a-kata", 0x30A2)])]
+    for i in range(ctx.budget(2 * len(TAGS), 4 * len(TAGS))):
+        tag, letters = TAGS[i % len(TAGS)]
+        lib = ["ufoLib2", "defcon"][(i // len(TAGS)) % 2]
+        flavor = ["ttf", "otf"][(i // (2 * len(TAGS))) % 2]
+        glyphs = [{"name": n, "unicodes": [u], "width": 500, "contours": [], "anchors": [("top", Fr(250), Fr(600))] if a else []}
+                  for n, u, a in [("A", 0x41, True), ("V", 0x56, False), ("period", 0x2E, False), ("quotesingle", 0x27, False), ("one", 0x31, False)]
+                  + [(n, u, True) for n, u in letters]]
+        glyphs.append({"name": "acutecomb", "unicodes": [0x301], "width": 0, "contours": [], "anchors": [("_top", Fr(0), Fr(480))]})
+        names = [g["name"] for g in glyphs]
+        kerning = {("A", "V"): Fr(-40), ("period", "quotesingle"): Fr(-55), ("one", "period"): Fr(12)}
+        desc = {"glyphs": glyphs, "glyphOrder": names, "kerning": kerning,
+                "features": "languagesystem DFLT dflt;\nlanguagesystem latn dflt;\nlanguagesystem %s dflt;\n" % tag,
+                "lib": {"public.openTypeCategories": dict({n: "base" for n in names}, acutecomb="mark")}}
+        case = {"font": jsonable(dict(desc, kerning={"%s|%s" % k: v for k, v in kerning.items()})), "lib": lib, "flavor": flavor, "declared_tag": tag,
+                "level": "declared script tags of every kind"}
+        ctx.count(); ctx.klass("declared tag %s" % tag); ctx.nontriv(("dtag", i, ctx.scale))
+        try:
+            tt = (ufo2ft.compileTTF if flavor == "ttf" else ufo2ft.compileOTF)(build_font(desc, lib), useProductionNames=False)
+            buf = io.BytesIO(); tt.save(buf); buf.seek(0); tt = TTFont(buf)
+        except Exception as e:
+            ctx.spec_failure(case, "compile raised %s: %s\n%s" % (type(e).__name__, e, traceback.format_exc()[-1200:]))
+            continue
+        lay = Layout(tt)
+        sc = lay.scripts()
+        for t in ("DFLT", "latn", tag):
+            if t not in sc:
+                continue                    # (no record of its own: the shaper takes DFLT's)
+            feats = sc[t].get("dflt", [])
+            if "mark" in feats and not ({"kern", "dist"} & set(feats)):
+                ctx.spec_failure(dict(case, script=t, features=feats), "script %s exposes the generated mark feature but no generated kerning (%r), "
+                                 "although the font kerns script-neutral glyphs" % (t, feats))
+                continue
+            lk = lay.lookups_for(t, {"kern", "dist"})
+            for (a, c), v in (("period", "quotesingle"), -55), (("one", "period"), 12):
+                got = lay.pair_adjust(lk, a, c)[0]
+                if got != v:
+                    ctx.spec_failure(dict(case, script=t, pair=[a, c]), "under %s the pair (%s, %s) of script-neutral glyphs is adjusted by %r, the UFO says %r" % (t, a, c, got, v))
+
+
 def explore(ctx):
+    declared_tag_section(ctx)
     lookup_refs_section(ctx)
     rules_section(ctx)
     master_only_kerning_section(ctx)
